@@ -367,3 +367,178 @@ pub fn c08(tier: &str) -> ! {
     rep.cov("rule", json!("one evaluation = one re-execution of a history with the i-th filesystem call failing (once or sticky), for every i of the uninjected run; judged: no panic, no hang (also at close); after every operation all keys are read and the non-error results must be explained by one candidate state (Ok writes applied, Err writes applied or not); after disarming the fault the database must reopen and contain a candidate state. distinct_nontrivial = injections whose fault actually fired (the call index was reached)"));
     rep.finish()
 }
+
+// ------------------------------------------------------------------------------------------------
+// C15: single-byte corruption at every offset of every file
+// ------------------------------------------------------------------------------------------------
+
+pub fn c15_histories() -> Vec<History> {
+    use Op::*;
+    let mk = |name: &str, c: &str, ops: Vec<Op>| History {
+        name: name.to_string(),
+        cfgs: cfgs(&[c]),
+        keys: k3(),
+        ops,
+    };
+    vec![
+        mk("tables-L0-L1-L2", "T300", vec![Put(0, 0), Put(1, 0), Flush, Put(0, 0), Put(2, 0), Flush, Del(1), Put(0, 0), Flush, Put(2, 0)]),
+        mk("wal-only", "D", vec![Put(0, 0), Put(1, 0), Del(0), Batch(vec![(0, true), (2, true)]), Put(1, 0)]),
+        mk(
+            "after-compaction",
+            "T300",
+            vec![Put(0, 0), Flush, Put(1, 0), Flush, Put(2, 0), Flush, Put(0, 0), Flush, Del(1), Flush, Compact(None, None), Put(1, 0), Reopen(0), Put(2, 0)],
+        ),
+        mk("multi-block-wal", "D", vec![Put(0, 0), BatchBig(vec![1, 2]), Put(0, 0), Del(2)]),
+        mk("noreuse-manifest-snapshot", "T300n", vec![Put(0, 0), Flush, Put(1, 0), Flush, Reopen(0), Put(2, 0), Flush, Reopen(0), Put(0, 0)]),
+    ]
+}
+
+pub fn c15(tier: &str) -> ! {
+    use crate::corruptx::*;
+    use crate::shm::*;
+    use std::sync::{Arc, Mutex};
+    let mut rep = Report::new("C15", tier, "fault_enumeration");
+    let t = tier == "thorough";
+    let t0 = Instant::now();
+    // build the images (one execution each)
+    let mut imgs: Vec<BuiltImage> = vec![];
+    for h in c15_histories() {
+        let slot: Arc<Mutex<Option<Result<BuiltImage, String>>>> = Arc::new(Mutex::new(None));
+        let slot2 = Arc::clone(&slot);
+        let h2 = h.clone();
+        let s = crate::sched::Sched::new(crate::sched::Mode::Fixed);
+        let o = crate::run::run_once(&s, move || {
+            *slot2.lock().unwrap() = Some(build_image(&h2));
+        });
+        let built = slot.lock().unwrap().take();
+        match (o, built) {
+            (Some(crate::run::Outcome::Ok), Some(Ok(img))) => imgs.push(img),
+            (o, r) => rep.machinery.push(format!("building image {} failed: {:?} {:?}", h.name, o, r.map(|r| r.err()))),
+        }
+    }
+    let only = std::env::var("RDBCHECK_ONLY").ok();
+    let mutations: Vec<Mutation> = {
+        let mut m: Vec<Mutation> = (0..8).map(Mutation::FlipBit).collect();
+        m.push(Mutation::Zero);
+        if t {
+            m.push(Mutation::Ones);
+            m.push(Mutation::Inc);
+        }
+        m
+    };
+    let mut cases: Vec<Case> = vec![];
+    for (ii, img) in imgs.iter().enumerate() {
+        if let Some(o) = only.as_ref() {
+            if !img.name.contains(o.as_str()) {
+                continue;
+            }
+        }
+        for (path, data) in img.image.iter() {
+            if file_kind(path) == "other" {
+                continue;
+            }
+            let offsets: Vec<usize> = if data.len() <= 6000 {
+                (0..data.len()).collect()
+            } else {
+                // big file (multi-block WAL record): +-64 around each 32 KiB block boundary and
+                // both ends, plus a stride
+                let mut s: std::collections::BTreeSet<usize> = Default::default();
+                let mut add = |c: usize| {
+                    for d in 0..=64usize {
+                        if c >= d {
+                            s.insert(c - d);
+                        }
+                        if c + d < data.len() {
+                            s.insert(c + d);
+                        }
+                    }
+                };
+                add(0);
+                add(data.len() - 1);
+                let mut b = 32768;
+                while b < data.len() {
+                    add(b);
+                    b += 32768;
+                }
+                let mut x = 0;
+                while x < data.len() {
+                    s.insert(x);
+                    x += if t { 251 } else { 1009 };
+                }
+                s.into_iter().collect()
+            };
+            for &off in offsets.iter() {
+                for m in mutations.iter() {
+                    cases.push(Case { image: ii, file: path.clone(), offset: off, mutation: *m });
+                }
+            }
+            if file_kind(path) == "table" {
+                for len in 0..data.len().min(6000) {
+                    if t || len % 16 == 0 || len % 16 == 15 || len % 16 == 1 {
+                        cases.push(Case { image: ii, file: path.clone(), offset: len, mutation: Mutation::Truncate });
+                    }
+                }
+            }
+        }
+    }
+    let chunk = (cases.len() / 800).max(50);
+    let n_jobs = (cases.len() + chunk - 1) / chunk;
+    let imgs = Arc::new(imgs);
+    let cases = Arc::new(cases);
+    let shm = Arc::new(Shm::new(1 << 10, 16 << 20));
+    let (imgs2, cases2, shm2) = (Arc::clone(&imgs), Arc::clone(&cases), Arc::clone(&shm));
+    let total = cases.len();
+    let (capped, machinery) = pool(n_jobs, workers(), &shm, Some(Instant::now() + budget(tier, 45, 2400)), move |j| {
+        let range = (j * chunk, ((j + 1) * chunk).min(total));
+        corrupt_job(&imgs2, &cases2, range, &shm2, C_USER + j);
+    });
+    // a job that died (abort, e.g. allocation blow-up): the case it was working on is a violation
+    for (tag, data) in shm.records() {
+        if tag == b'M' {
+            let s = String::from_utf8_lossy(&data).to_string();
+            if let Some(j) = s.strip_prefix("job ").and_then(|r| r.split(' ').next()).and_then(|x| x.parse::<usize>().ok()) {
+                let prog = shm.get(C_USER + j) as usize;
+                if prog >= 1 {
+                    let c = &cases[prog - 1];
+                    rep.findings.push(Finding {
+                        clause: "C15.abort".into(),
+                        detail: format!("the process aborted while opening/reading the corrupted database ({})", s),
+                        ops: vec![format!("image {}", imgs[c.image].name), format!("{} byte {} of {}", c.mutation.name(), c.offset, file_kind(&c.file))],
+                        artefact: json!({"explorer": "corruptx", "case": case_json(&imgs, c), "note": "the rest of this job's chunk was not evaluated"}),
+                    });
+                    continue;
+                }
+            }
+            rep.machinery.push(s);
+        }
+    }
+    for m in machinery {
+        rep.machinery.push(m);
+    }
+    let mut per_clause: std::collections::BTreeMap<String, usize> = Default::default();
+    for (clause, detail, case, ops) in parse_found(&shm) {
+        let key = format!("{}|{}|{}", clause, case["file_kind"].as_str().unwrap_or(""), case["byte_role"].as_str().unwrap_or(""));
+        let n = per_clause.entry(key).or_insert(0);
+        *n += 1;
+        if *n <= 100_000 {
+            let mut o = vec![format!("image {}", case["image"].as_str().unwrap_or("")), format!("{} byte {} of {}", case["mutation"].as_str().unwrap_or(""), case["offset"], case["file_kind"].as_str().unwrap_or(""))];
+            o.extend(ops);
+            rep.findings.push(Finding { clause, detail, ops: o, artefact: json!({"explorer": "corruptx", "case": case}) });
+        } else {
+            rep.extra_violations += 1;
+        }
+    }
+    rep.cov("evaluations", json!(shm.get(C_CASES)));
+    rep.cov("distinct_nontrivial", json!(shm.get(C_NONTRIVIAL)));
+    rep.cov("exhaustive", json!(!capped));
+    rep.cov("outcome_classes", json!({"all_reads_correct": shm.get(C_USER + 900), "open_failed": shm.get(C_USER + 901), "open_ok_some_read_failed": shm.get(C_USER + 902)}));
+    rep.cov("finding_classes", json!(per_clause));
+    for img in imgs.iter() {
+        rep.cov_push("samples", json!({"image": img.name, "history": img.history.describe(), "files": img.image.iter().map(|(p, d)| format!("{} ({} B)", p.display(), d.len())).collect::<Vec<_>>()}));
+    }
+    rep.cov("rule", json!("one evaluation = one database image with one byte of one persistent file mutated (each bit flipped, set to 0x00; thorough also 0xff and +1; table files also truncated), opened with the real DB::open and read completely (get of every key, forward and backward scan). Oracle: every result is an error or correct; for a WAL the damaged records may be skipped (any value ever written to the key, or absence, is accepted). distinct_nontrivial = evaluations whose outcome differed from the uncorrupted run (open failed or some read failed) plus those that violated the oracle"));
+    rep.assume("single-byte corruption of one file of an otherwise intact image; large files sampled around block boundaries plus a stride");
+    rep.assume("a scan that stops early without an error visible through the public iterator API counts as silently missing data");
+    rep.cov("wall_build_s", json!(t0.elapsed().as_secs_f64()));
+    rep.finish()
+}
